@@ -83,8 +83,11 @@ def run(ctx):
     done = k = 0
     adaptive_records = []
     assemble_records, assemble_errors = [], []
+    span_records = []
+    import span_model
     import assemble_model
     entry_list = []
+    pipeline_items = []
     pick_rng = np.random.default_rng(20202)     # separate stream: the fixed sample below must stay the validated one
     shifted_left = ctx.n(6, 60)
     pending = []
@@ -127,9 +130,14 @@ def run(ctx):
                 clusters = shared.get_clusters(a, seed=seed)
             if len(adaptive_records) < 500:
                 adaptive_records.extend(prec.adaptive[:30])
+            if len(span_records) < ctx.n(20, 200):
+                span_records.extend(prec.span[:2])
             if len(assemble_records) < ctx.n(60, 400):
                 assemble_records.extend(prec.assemble[:3])
                 assemble_errors.extend(prec.assemble_errors)
+            n_regions = sum(1 for c_ in rec.calls if c_["basis"] is not None)
+            if len(a) <= 300 and ((n_regions >= 2 and len(pipeline_items) < ctx.n(14, 120)) or len(pipeline_items) < 4):
+                pipeline_items.append((SC.sbcrun_line(a, clusters, rec), clusters, {k_: v_ for k_, v_ in desc.items()}))
             if len(entry_list) < 200:
                 entry_list.extend(finder_helpers.entry_items(a, rec.system, pick_rng, desc["kind"]))
             dims = [c.get_dimensionality() for c in clusters]
@@ -168,6 +176,8 @@ def run(ctx):
     finder_helpers.check(ctx, broken, adaptive_records, entry_list)
     region_model.check(ctx, broken, region_rec.records)
     assemble_model.check(ctx, broken, assemble_records, assemble_errors)
+    span_model.check(ctx, broken, span_records)
+    finder_helpers.pipeline_corr(ctx, broken, pipeline_items)
     if broken and not ctx.unknown_findings():
         ctx.finding("unproved", "conditional theorem no longer checks, no failing crystal found", {"kind": "broken-obligation", "broken": broken}, found_input=False)
     ctx.coverage["broken"] = [{"what": k_, "info": i} for k_, i in broken]
